@@ -192,14 +192,16 @@ def run(ctx):
     order_notes = {}
     for fam in FAMILIES:
         ps = fam['params'](ctx.rng, ctx.tier)
-        has_spec = 'request_spec' in fam
-        reqs = [fam['request'](p) for p in ps]
-        if has_spec:
-            reqs += [fam['request_spec'](p) for p in ps]
-        replies = ctx.model.batch(reqs)
-        for idx, p in enumerate(ps):
-            rep = replies[idx]
-            rep_spec = replies[len(ps) + idx] if has_spec else None
+        if 'alternatives' in fam:
+            alts = [fam['alternatives'](p) for p in ps]
+        else:
+            alts = [[dict(label='model', request=fam['request'](p), finding=None)] for p in ps]
+        flat = [alt['request'] for al in alts for alt in al]
+        replies = ctx.model.batch(flat)
+        pos = 0
+        for p, al in zip(ps, alts):
+            reps = replies[pos:pos + len(al)]
+            pos += len(al)
             stream = fam['name'] + ('-malformed' if p.get('malformed') else '-boundary' if p.get('boundary') else
                                     '-large' if p.get('large') else '')
             ctx.tally('family', fam['name'])
@@ -207,9 +209,9 @@ def run(ctx):
                 if key in p:
                     ctx.tally(fam['name'] + ' size', p[key])
                     break
-            if is_error(rep) or (has_spec and is_error(rep_spec)):
+            if any(is_error(r) for r in reps):
                 ctx.count(stream, (fam['name'], repr(p)), True)
-                ctx.violation('correspondence', 'model error', dict(input=dict(family=fam['name'], params=short(p)), model=rep),
+                ctx.violation('correspondence', 'model error', dict(input=dict(family=fam['name'], params=short(p)), model=str(reps)[:300]),
                               False, site='model-error', cls=fam['name'])
                 continue
             got_cnf = None
@@ -221,7 +223,7 @@ def run(ctx):
                 ctx.count(stream, (fam['name'], fcname, repr(p)), nontriv,
                           sample=dict(family=fam['name'], params=short(p), formula_class=fcname))
                 if got[0] == 'ok':
-                    ctx.tally('variables', min(got[1][0], 10 ** 9) if got[1][0] < 50 else '>=50')
+                    ctx.tally('variables', got[1][0] if got[1][0] < 50 else '>=50')
                     doc = fam['numvar_doc'](p)
                     if doc is not None and doc != got[1][0] and not p.get('malformed'):
                         ctx.violation('counterexample', '%s has %d variables, documented %d' % (fam['impl'], got[1][0], doc),
@@ -229,35 +231,35 @@ def run(ctx):
                                       site=fam['impl'], cls='numvar-differs')
                 inp = dict(family=fam['name'], params=short(p), formula_class=fcname,
                            library_call=fam['impl'], model_request=str(fam['request'](p))[:300])
-                mv = model_view(rep, fcname)
-                ok, detail = agrees(got, mv, fcname)
-                if has_spec:
-                    ok_spec, detail_spec = agrees(got, model_view(rep_spec, fcname), fcname)
-                    if ok_spec:
-                        if detail_spec == 'order':
-                            order_notes[fam['name']] = order_notes.get(fam['name'], 0) + 1
-                        continue                      # documented behaviour: silent
+                agreed = None
+                for alt, rep in zip(al, reps):
+                    ok, detail = agrees(got, model_view(rep, fcname), fcname)
                     if ok:
-                        # the code still has the defect: produce the failing input
-                        ctx.disagreements_checked += 1
-                        f = fam['finding']
-                        if got[0] == 'exc':
-                            ctx.violation('counterexample', '%s raises %s on a valid argument' % (fam['impl'], got[1]),
-                                          dict(input=inp, implementation=list(got[1:])), True, site=f['site'], cls=f['cls'])
-                        else:
-                            found, what, extra, _ = search_failing_input(ctx, fam, p, got_cnf)
-                            rp = dict(input=inp, agrees_with='model variant as_is (coq/Fam_%s.v), not with spec' % fam['name'])
-                            rp.update(extra)
-                            ctx.violation('counterexample' if found else 'correspondence',
-                                          what or '%s differs from its documented clauses' % fam['impl'], rp, found,
-                                          site=f['site'], cls=f['cls'])
-                        continue
-                elif ok:
-                    if detail == 'order':
+                        agreed = (alt, detail)
+                        break
+                if agreed is not None and agreed[0]['finding'] is None:
+                    if agreed[1] == 'order':
                         order_notes[fam['name']] = order_notes.get(fam['name'], 0) + 1
                     continue
-                # ---- genuine disagreement with every model variant ----
                 ctx.disagreements_checked += 1
+                if agreed is not None:
+                    # the defect of this model variant is in the code: produce the failing input
+                    f = agreed[0]['finding']
+                    if got[0] == 'exc':
+                        ctx.violation('counterexample', '%s raises %s on a valid argument' % (fam['impl'], got[1]),
+                                      dict(input=inp, implementation=list(got[1:])), True, site=f['site'], cls=f['cls'])
+                    else:
+                        found, what, extra, _ = search_failing_input(ctx, fam, p, got_cnf)
+                        rp = dict(input=inp, agrees_with='model variant %s (coq/Fam_%s.v), not with the documented one' %
+                                  (agreed[0]['label'], fam['name']))
+                        rp.update(extra)
+                        ctx.violation('counterexample' if found else 'correspondence',
+                                      what or '%s differs from its documented clauses' % fam['impl'], rp, found,
+                                      site=f['site'], cls=f['cls'])
+                    continue
+                # ---- disagreement with every model variant ----
+                mv = model_view(reps[0], fcname)
+                detail = agrees(got, mv, fcname)[1]
                 if got[0] == 'exc' and not p.get('malformed'):
                     ctx.violation('counterexample', '%s raised %s: %s' % (fam['impl'], got[1], got[2]),
                                   dict(input=inp, implementation=list(got[1:]), model=str(mv)[:300]), True,
